@@ -1,7 +1,7 @@
 PROPERTY = "C01"
 ENCODED = ["MinidumpWriter::{dump,generate_dump}", "dir_section::DirSection", "mem_writer::*", "sections::{thread_names_stream,memory_list_stream,exception_stream,app_memory,mappings}::write", "mappings::fill_raw_module",
            "dso_debug::write_dso_debug_stream", "thread_list_stream::write (records handed to the image builder)"]
-BOUNDS = {"directory accounting": "the real 18-stream generate_dump with modelled /proc- and ptrace-fed writers (4-byte bodies), failure patterns of C11, 640-byte destination at a symbolic offset 0..4",
+BOUNDS = {"directory accounting": "the real 18-stream generate_dump with modelled /proc- and ptrace-fed writers (4-byte bodies); quick tier observes the (entry, buffer position) sequence handed to DirSection, thorough tier the bytes of image and destination",
           "per-stream layout": "thread names (1-4 threads), memory list (0-3 regions), exception stream, module list (3+1 mappings), linker debug stream (2 objects), thread list (1-2 threads; records observed at the builder boundary)"}
 OUTSIDE = ["the real /proc-fed writers end to end (MemoryInfoList, HandleData, SystemInfo, raw file copies): their bodies are modelled; their layout rests on C16's laws",
            "1..64 threads, more than 3 mappings / regions", "the mac writer", "pairwise non-overlap is shown through the chain 'each stream starts at or after the end of the previous one' (streams are laid out in slot order)"]
@@ -9,11 +9,13 @@ ASSUMPTIONS = ["see C11/C19 (dump() skeleton stubs), C15, C07, C05, C08, C18 for
 SK = {"extend_with": 60, "ArrDest": 660, "MINIDUMP_EXCEPTION": 20, "alloc_from_array": 8}
 def K(n, d, tier="quick", **kw): return H("c19_dump::" + n, desc=d, tier=tier, loops=SK, timeout=3000, est_gb=16, mem_gb=34, fs_array=1024, **kw)
 HARNESSES = [
-    K("c19_dump_fresh", "directory accounting: all 18 streams written"),
-    K("c11_dump_all_best_effort_fail", "directory accounting: every best-effort stream fails -> all-zero entries", "thorough"),
+    H("c19_dump::g_dump_fresh", desc="directory accounting at the DirSection boundary: 20 flushes, 18 entries in the fixed order, types unique, locations chained and inside what is flushed", loops={"MINIDUMP_EXCEPTION": 20, "alloc_from_array": 8}, timeout=2400, est_gb=8, mem_gb=24),
+    H("c19_dump::g_dump_all_best_effort_fail", desc="directory accounting when every best-effort stream fails: all-zero entries", loops={"MINIDUMP_EXCEPTION": 20, "alloc_from_array": 8}, timeout=2400, est_gb=8, mem_gb=24),
+    K("c19_dump_fresh", "byte-level directory accounting with the real DirSection and a 640-byte destination", "thorough"),
     H("c15_thread_names::c15_n2_un_na", loops={"extend_with": 60}, desc="thread-name stream layout: count header + array + blobs, disjoint, inside the image"),
     H("c15_thread_names::c15_n3_na_un_na", loops={"extend_with": 60}, desc="thread-name stream layout, 3 threads"),
     H("c07_memory_list::c07_app_len7_len9", loops={"extend_with": 40, "alloc_from_array": 8}, desc="memory list layout: count + 16-byte records, rvas of region bytes"),
-    H("c08_modules::c08_write_list", loops={"extend_with": 60}, timeout=1500, est_gb=8, desc="module list layout: CV records and names precede the list, rvas inside the image"),
+    H("c08_modules::c08_write_list", loops={"extend_with": 60}, timeout=1500, est_gb=8, desc="module list layout: count + 108-byte records in call order"),
+    H("c20_skip_stacks::c20_incl_serve16_off0", loops={"extend_with": 40}, desc="a skipped stack has size 0 and no memory-list entry (no dangling stack descriptor)"),
     H("c02_dso_debug::c18_dso_two_objects", timeout=1800, est_gb=8, loops={"extend_with": 60}, desc="linker debug stream layout: link_map array, names, debug record + dynamic section", tier="thorough"),
 ]
